@@ -32,8 +32,12 @@ def rand_assembly(rng, wf="agp", nsc=3, maxrows=5):
                 nm += "x"
         prev = nm
         rows = []
+        gts = (["scaffold", "contig", "centromere", "short_arm", "repeat", "type_9"] if wf != "agp" else
+               ["scaffold", "contig", "centromere", "Short-Arm", "type_2", "TYPE-3", "x y"])
+        if wf != "both" and rng.random() < 0.15:
+            rows.append(conv.jgap(rng.choice([1, 10, 200]), rng.choice(gts)))     # AGP scaffolds may start with a gap (FASTA-derived ones do)
         for r in range(rng.randint(1, maxrows)):
-            if rows and rng.random() < 0.35 and rows[-1]["t"] == "F":
+            if rows and rng.random() < 0.35 and (rows[-1]["t"] == "F" or rng.random() < 0.2):
                 gt = rng.choice(["scaffold", "contig", "centromere", "short_arm", "repeat", "type_9"] if wf != "agp" else
                                 ["scaffold", "contig", "centromere", "Short-Arm", "type_2", "TYPE-3", "x y"])
                 rows.append(conv.jgap(rng.choice([1, 100, 200, rng.randint(1, 10**9)]), gt))
@@ -45,6 +49,8 @@ def rand_assembly(rng, wf="agp", nsc=3, maxrows=5):
             strand = rng.choice([1, -1] if wf == "both" else [1, -1, 0])
             tags = [] if wf == "both" and rng.random() < 0.5 else [rng.choice(["Painted", "Hap1", "X", "Cut", "t-1", "a.b"]) for _ in range(rng.randint(0, 3))]
             rows.append(conv.jfrag(oid, cn, st, st + ln - 1, strand, tags)); oid += 1
+        if rng.random() < 0.2:
+            rows.append(conv.jgap(rng.choice([1, 100, 200]), rng.choice(gts)))     # a scaffold may end with a gap (telomere etc.)
         scs.append(conv.jscaffold(nm, rows))
     return {"header": hdr, "scaffolds": scs}
 
